@@ -35,9 +35,9 @@ type VerifC02Import struct {
 	Alias     string
 	IsStar    bool
 	Record    uint32
-	HasNS     bool // NamespaceRef != InvalidRef
+	HasNS     bool   // NamespaceRef != InvalidRef
 	NSRef0    uint32 // NamespaceRef.InnerIndex
-	Generated bool // symbol.ImportItemStatus == ImportItemGenerated (before linking)
+	Generated bool   // symbol.ImportItemStatus == ImportItemGenerated (before linking)
 	Exported  bool
 
 	// after scanImportsAndExports
